@@ -62,6 +62,7 @@ def predicate(ops, out):
     kept = {}                 # topic -> (tag, qos)
     ver, cid = {}, {}
     have = collections.defaultdict(set)   # cid -> set of full filter names subscribed
+    deferred = None
     for op, line in zip(ops, out):
         f = op.split()
         pre, conns = wire.parse_line(line)
@@ -92,6 +93,7 @@ def predicate(ops, out):
             tops = [x for x in f[3:] if not x.startswith("id=")]
             lastopt = {tp.split("|")[0]: tp for tp in tops}
             want = collections.Counter()
+            raps = collections.defaultdict(list)    # topic -> RAP flags of the filters of this SUBSCRIBE that replay it
             for tp0, code in zip(tops, codes):
                 name = tp0.split("|")[0]
                 own = tp0.split("|")
@@ -108,7 +110,11 @@ def predicate(ops, out):
                 for topic, (tag, q) in kept.items():
                     if mqtt_match(name, topic):
                         want[(topic, tag, min(q, int(ps[1])))] += 1
+                        raps[topic].append("rap" in ps[2:] and ver[c] == 5)
             got = collections.Counter()
+            ids = [wire.pub_fields(x)["id"] for x in p if wire.pub_fields(x) and wire.pub_fields(x)["q"] > 0]
+            if len(ids) != len(set(ids)):
+                return f"`{op}`: two replayed copies share one packet identifier: {ids}"
             for x in p:
                 pf = wire.pub_fields(x)
                 if pf is None:
@@ -122,8 +128,14 @@ def predicate(ops, out):
             for x in p:
                 pf = wire.pub_fields(x)
                 if pf and pf["r"] != 1:
-                    return f"`{op}`: retained message {pf['tag']} on {pf['t']} replayed to a new subscription with RETAIN=0"
-    return None
+                    with_flag = sum(1 for y in p if (wire.pub_fields(y) or {}).get("t") == pf["t"] and wire.pub_fields(y)["r"] == 1)
+                    if with_flag < sum(raps.get(pf["t"], [])):
+                        return (f"`{op}`: retained message {pf['tag']} on {pf['t']} replayed with RETAIN=0 to a subscription that "
+                                f"requested Retain As Published ({with_flag} of {sum(raps[pf['t']])} such copies carry the flag)")
+                if pf and pf["r"] != 1 and deferred is None:
+                    # recorded finding F13: keep looking, so that it never hides a different failure later in the history
+                    deferred = f"`{op}`: retained message {pf['tag']} on {pf['t']} replayed to a new subscription with RETAIN=0"
+    return deferred
 
 def nontrivial(ops, out):
     """a SUBSCRIBE that replays >= 1 retained message, after a retained publish was replaced or cleared"""
@@ -145,5 +157,7 @@ def rec_f13(info):
 
 def stream(tier):
     n = 500 if tier == "quick" else 15000
-    return (core.Stream("broker-retained", "broker", gen, predicate, nontrivial, canon=wire.canon, keep_prefix=1,
-                        hint=wire.shared_hints), n)
+    st = core.Stream("broker-retained", "broker", gen, predicate, nontrivial, canon=wire.canon, keep_prefix=1,
+                     hint=wire.shared_hints)
+    st.compare_known = True       # the model mirrors F13, so a case that shows F13 must still agree with it line by line
+    return (st, n)
